@@ -121,7 +121,7 @@ def _build(lines, rng, h, hashes, track, above):
         if style < 0.6 or len(hs) > 400:
             # dictionary of abundances
             big = rng.random() < 0.02
-            pool = ABUND_POOL + ([2 ** 32, 2 ** 40] if big else [])
+            pool = ABUND_POOL + ([2 ** 32, 2 ** 32 - 1, 2 ** 32 + 1, 3 * 2 ** 31, 2 ** 40, 2 ** 63, 2 ** 64 - 1] if big else [])
             lines.append(f"setab {h} 1 " + " ".join(f"{x}:{rng.choice(pool)}" for x in hs))
         else:
             # repeated additions: abundance = multiplicity
@@ -296,6 +296,21 @@ def gen_case(rng, flavour):
     cn_opts = [0, 0, 1, min(pa["num"], pb["num"]), max(pa["num"], pb["num"]), 3]
     a, b = rng.choice(pairs)
     qs.append(f"numc {a} {b} {rng.choice(cn_opts)} {rng.randint(0, 1)}")
+    # float primitives of the angular tail (exact model vs hardware IEEE): sqrt and the acos argument
+    def _sq(ab):
+        return sum(v * v for v in ab) % 2 ** 64
+    for _ in range(2):
+        qs.append(f"fsqrt {rng.choice([rng.randint(0, 200), rng.randint(0, U64), 2 ** rng.randint(0, 63) + rng.randint(0, 3), rng.randint(1, 2 ** 53)])}")
+    for _ in range(3):
+        n = rng.randint(1, 4)
+        va = [rng.choice(ABUND_POOL + [rng.randint(1, 50)]) for _ in range(n)]
+        vb = va if rng.random() < 0.4 else [rng.choice(ABUND_POOL + [rng.randint(1, 50)]) for _ in range(n)]
+        if rng.random() < 0.3:
+            k = rng.randint(2, 9)
+            vb = [k * x for x in va]          # proportional vectors: cosine exactly 1
+        pa_, pb_ = _sq(va), _sq(vb)
+        if pa_ and pb_:
+            qs.append(f"fcos {sum(x * y for x, y in zip(va, vb)) % 2 ** 64} {pa_} {pb_}")
     # keep symmetric partners together: choose a random subset of *unordered* queries
     keep = 1.0 if len(A) + len(B) < 400 else 0.6
 
@@ -308,6 +323,20 @@ def gen_case(rng, flavour):
         if kq not in chosen:
             chosen[kq] = rng.random() < keep
     lines += [q for q in qs if chosen[key(q)]]
+    # the downsample flag against EXPLICIT downsampling (always emitted, in matching pairs)
+    same_core = (pa["k"], pa["seed"], pa["hf"]) == (pb["k"], pb["seed"], pb["hf"])
+    if same_core and pa["num"] == 0 and pb["num"] == 0 and pa["sc"] != pb["sc"]:
+        S_ = max(pa["sc"], pb["sc"])
+        lines += [f"down 4 0 {S_}", f"down 5 1 {S_}"]
+        for x, y, u, v in ((0, 1, 4, 5), (1, 0, 5, 4)):
+            for ia in (0, 1):
+                lines += [f"sim {x} {y} {ia} 1", f"sim {u} {v} {ia} 0"]
+            lines += [f"cc {x} {y} 1", f"cc {u} {v} 0", f"jac {x} {y} 1", f"jac {u} {v} 0",
+                      f"cb {x} {y} 1", f"cb {u} {v} 0", f"mc {x} {y} 1", f"mc {u} {v} 0", f"ac {x} {y} 1", f"ac {u} {v} 0"]
+    elif same_core and pa["num"] and pb["num"]:
+        n_ = min(pa["num"], pb["num"])
+        lines += [f"downnum 4 0 {n_}", f"downnum 5 1 {n_}", "numc 0 1 0 0", "numc 1 0 0 0", "jac 4 5 0", "jac 5 4 0",
+                  "sim 0 1 0 1", "sim 0 1 0 0", "sim 0 1 1 1", "sim 0 1 1 0"]
     return lines
 
 
@@ -319,6 +348,7 @@ BUILD_OPS = {"newm", "new", "addmany", "addab", "setab", "copy", "down", "downnu
 SIG_DS = "C05:containment-downsample-flag-keeps-undownsampled-size"
 SIG_ANG_SELF = "C05:angular-self-not-1"
 SIG_EMPTY = "C05:incompatible-answered:empty-containment"
+SIG_OVERFLOW = "C05:angular-u64-overflow"
 
 
 class Sk:
@@ -380,14 +410,14 @@ def _check_cont(v, num, den, s):
 
 
 def _ang_bounds(A, B):
-    """A, B: dict hash->abund.  -> ('skip'|'zero'|'val', lo, hi, ident)"""
+    """A, B: dict hash->abund.  -> ('zero'|'val', lo, hi, overflow): bounds of the textbook value computed with
+    exact integers; `overflow` says that a sum of squares / the dot product does not fit u64"""
     sa = sum(v * v for v in A.values())
     sb = sum(v * v for v in B.values())
     dot = sum(v * B[h] for h, v in A.items() if h in B)
-    if sa > U64 or sb > U64 or dot > U64:
-        return ("skip", 0, 0)
+    over = sa > U64 or sb > U64 or dot > U64      # the u64 accumulators of the implementation overflow
     if sa == 0 or sb == 0 or dot == 0:
-        return ("zero", 0.0, 0.0)
+        return ("zero", 0.0, 0.0, over)
     D = sa * sb - dot * dot          # Lagrange: >= 0, exact
     N = math.sqrt(sa * sb)
     c = dot / N
@@ -399,13 +429,14 @@ def _ang_bounds(A, B):
         return 1.0 - 2.0 * (2.0 * math.asin(math.sqrt(y / 2.0))) / math.pi
     lo = t_of(y0 + c * dmax) - 1e-12
     hi = t_of(y0 - c * dmax) + 1e-12
-    return ("val", lo, hi)
+    return ("val", lo, hi, over)
 
 
 def oracle(case, impl):
     S = {}
     bad = []
     answers = {}
+    derived = {}          # handle -> (op, source handle, value) for explicit downsampling
 
     def flag(idx, sig, msg):
         bad.append((idx, sig, f"`{case[idx]}`: {msg}"))
@@ -431,10 +462,12 @@ def oracle(case, impl):
                     if src is None:
                         continue
                     S[r] = Sk(src.k, src.seed, src.hf)
+                    if o in ("down", "downnum"):
+                        derived[a[0]] = (o, a[1], int(a[2]))
                 if r in S:
                     S[r].upd(st)
             continue
-        if obs == "bad-op" or len(a) < 2:
+        if obs == "bad-op" or len(a) < 2 or o in ("fsqrt", "fcos"):
             continue
         try:
             A, B = S[int(a[0])], S[int(a[1])]
@@ -510,19 +543,18 @@ def oracle(case, impl):
                 continue
             if want_ang:
                 r = _ang_bounds(A2.abund(), B2.abund())
-                if r[0] == "skip":
-                    bad.append((idx, "skip:overflow", "sum of squared abundances exceeds u64 (outside the stated assumption)"))
-                    continue
+                osig = (lambda sg: SIG_OVERFLOW) if r[3] else (lambda sg: sg)
+                otxt = " [sums of squared abundances exceed u64: the implementation's accumulators wrap]" if r[3] else ""
                 identical = A2.mins == B2.mins and A2.abund() == B2.abund() and len(A2.mins) > 0
                 if identical:
                     if abs(float(v) - 1.0) > RTOL:
-                        flag(idx, SIG_ANG_SELF, f"angular similarity of a sketch with itself is {float(v)!r}, not 1")
+                        flag(idx, osig(SIG_ANG_SELF), f"angular similarity of a sketch with itself is {float(v)!r}, not 1" + otxt)
                 elif r[0] == "zero":
                     if v != 0:
-                        flag(idx, "C05:angular-disjoint-not-0", f"no common hash (or an empty sketch) but angular similarity {float(v)!r}")
+                        flag(idx, osig("C05:angular-disjoint-not-0"), f"no common hash (or an empty sketch) but angular similarity {float(v)!r}" + otxt)
                 elif not (r[1] <= float(v) <= r[2]):
-                    flag(idx, "C05:angular-value", f"angular similarity {float(v)!r} is outside [{r[1]!r}, {r[2]!r}] "
-                                                   f"(1 - 2*acos(cos)/pi with cos from the exact sums)")
+                    flag(idx, osig("C05:angular-value"), f"angular similarity {float(v)!r} is outside [{r[1]!r}, {r[2]!r}] "
+                                                         f"(1 - 2*acos(cos)/pi with cos from the exact sums)" + otxt)
             else:
                 if A.num:
                     U = sorted(sA | sB)[:A.num]
@@ -576,6 +608,33 @@ def oracle(case, impl):
             if m is not None:
                 flag(idx, sig, m + (f" [downsample flag: sizes at the common scaled are |A|={len(sA)}, |B|={len(sB)}, "
                                     f"the sketches hold {len(A.mins)} and {len(B.mins)}]" if differing else ""))
+    # ---- the downsample flag = explicit downsampling --------------------------------
+    d4, d5 = derived.get("4"), derived.get("5")
+    if d4 and d5 and d4[0] == d5[0] == "down" and (d4[1], d5[1]) == ("0", "1") and d4[2] == d5[2] \
+            and S.get(0) is not None and S.get(1) is not None and d4[2] == max(S[0].sc, S[1].sc):
+        for x, y, u, v in (("0", "1", "4", "5"), ("1", "0", "5", "4")):
+            for o, fl, fe in [("sim", ("0", "1"), ("0", "0")), ("sim", ("1", "1"), ("1", "0")), ("cc", ("1",), ("0",)),
+                              ("jac", ("1",), ("0",)), ("cb", ("1",), ("0",)), ("mc", ("1",), ("0",)), ("ac", ("1",), ("0",))]:
+                p, q = answers.get((o, x, y, fl)), answers.get((o, u, v, fe))
+                if p is None or q is None:
+                    continue
+                if p[1] != q[1]:
+                    sig = SIG_DS if o in ("cb", "mc", "ac") else "C05:downsample-flag-vs-explicit:" + o
+                    bad.append((max(p[0], q[0]), sig,
+                                f"`{case[p[0]]}` answered {p[1]} but the explicitly downsampled sketches `{case[q[0]]}` give {q[1]}"))
+    if d4 and d5 and d4[0] == d5[0] == "downnum" and (d4[1], d5[1]) == ("0", "1") and d4[2] == d5[2]:
+        for x, y, u, v in (("0", "1", "4", "5"), ("1", "0", "5", "4")):
+            p, q = answers.get(("numc", x, y, ("0", "0"))), answers.get(("jac", u, v, ("0",)))
+            if p is None or q is None or not p[1].startswith("ok ") or not q[1].startswith("ok "):
+                continue
+            if _kv(p[1]).get("j") != q[1][3:]:
+                bad.append((max(p[0], q[0]), "C05:numcomparison-vs-explicit",
+                            f"`{case[p[0]]}` reports jaccard {_kv(p[1]).get('j')} but `{case[q[0]]}` on the explicitly "
+                            f"downsampled sketches gives {q[1]}"))
+        for ia in ("0", "1"):
+            p, q = answers.get(("sim", "0", "1", (ia, "1"))), answers.get(("sim", "0", "1", (ia, "0")))
+            if p is not None and q is not None and p[1] != q[1]:
+                bad.append((max(p[0], q[0]), "C05:downsample-flag-on-num", f"`{case[p[0]]}` answered {p[1]} but `{case[q[0]]}` {q[1]}"))
     # ---- symmetry ------------------------------------------------------------
     for (o, x, y, flags), (idx, obs) in answers.items():
         if o not in SYMMETRIC or x >= y:
@@ -681,8 +740,7 @@ def _oracle_dataclass(o, a, A, B, obs, idx, flag):
     tok = d.get("an", "")
     if A.tr and B.tr and not ia:
         r = _ang_bounds(A2.abund(), B2.abund())
-        if r[0] == "skip":
-            return
+        osig = (lambda sg: SIG_OVERFLOW) if r[3] else (lambda sg: sg)
         if not _is_f(tok):
             flag(idx, "C05:angular-value", f"field an={tok} is not a number")
         else:
@@ -690,12 +748,12 @@ def _oracle_dataclass(o, a, A, B, obs, idx, flag):
             identical = A2.mins == B2.mins and A2.abund() == B2.abund() and len(A2.mins) > 0
             if identical:
                 if abs(v - 1.0) > RTOL:
-                    flag(idx, SIG_ANG_SELF, f"angular similarity of a sketch with itself is {v!r}, not 1")
+                    flag(idx, osig(SIG_ANG_SELF), f"angular similarity of a sketch with itself is {v!r}, not 1")
             elif r[0] == "zero":
                 if v != 0:
-                    flag(idx, "C05:angular-disjoint-not-0", f"field an={v!r} but no common hash")
+                    flag(idx, osig("C05:angular-disjoint-not-0"), f"field an={v!r} but no common hash")
             elif not (r[1] <= v <= r[2]):
-                flag(idx, "C05:angular-value", f"field an={v!r} outside [{r[1]!r}, {r[2]!r}]")
+                flag(idx, osig("C05:angular-value"), f"field an={v!r} outside [{r[1]!r}, {r[2]!r}]")
 
 
 def nontrivial(case, impl):
